@@ -587,9 +587,11 @@ class CausalInference(object):
         # Step 2: Check if adjustment set is provided, otherwise try calculating it.
         if adjustment_set is None:
             do_vars = [var for var, state in do.items()]
+            # Parents of the do variables; a do variable itself is fixed by the
+            # intervention and is never adjusted for.
             adjustment_set = set(
                 chain(*[self.model.predecessors(var) for var in do_vars])
-            )
+            ) - set(do_vars)
             if len(adjustment_set.intersection(self.model.latents)) != 0:
                 raise ValueError(
                     "Not all parents of do variables are observed. Please specify an adjustment set."
